@@ -141,6 +141,19 @@ func Parse(file, text string) ([]*Block, error) {
 			cur = nil
 			last = nil
 			continue
+		case "guard":
+			// "guard <Struct.chanField> <Struct.muField> <property tags...>": a send on that channel
+			// field of an object requires that this goroutine holds the *mu in that field of the
+			// same object (an obligation at every such send)
+			f := strings.Fields(rest)
+			if len(f) < 2 {
+				return nil, fmt.Errorf("%s:%d: guard needs a channel field and a mutex field", file, i+1)
+			}
+			nb := &Block{Kind: "guard", Name: f[0], File: file, Line: i + 1, Opts: map[string]string{"mu": f[1]}, Tags: f[2:]}
+			blocks = append(blocks, nb)
+			cur = nil
+			last = nil
+			continue
 		case "lemma":
 			j := strings.Index(rest, "(")
 			if j < 0 || !strings.HasSuffix(rest, ")") {
@@ -551,6 +564,9 @@ func ParseModifies(text string) ([]ModItem, error) {
 			out = append(out, ModItem{"chan", it[10 : len(it)-1]})
 		case strings.HasPrefix(it, "mapof(") && strings.HasSuffix(it, ")"):
 			out = append(out, ModItem{"map", it[6 : len(it)-1]})
+		case strings.HasPrefix(it, "footprint(") && strings.HasSuffix(it, ")"):
+			// footprint(f(x)): f is a spec-side Go function whose body lists locations with gvcMod* calls
+			out = append(out, ModItem{"call", it[10 : len(it)-1]})
 		case strings.HasSuffix(it, ".*"):
 			out = append(out, ModItem{"all", it[:len(it)-2]})
 		default:
